@@ -180,6 +180,19 @@ def gen(rng, knobs):
                 h.add(h.regular(tags=[["expiration", str(T - 1)], ["expiration", str(T + 500)]]))
             else:
                 h.add(h.expiring(v, kind=rng.choice([1, 1, 7, 30000])))
+        if rng.random() < 0.3:
+            # decoys: timestamp-looking values under other tag names, near-miss tag names; the event
+            # is re-made because tags are signed
+            ev = h.events.pop()
+            assert h.ops.pop()[1] is ev
+            extra = [rng.choice([["t", str(T - 1000)], ["d", str(T - 5)], ["t", "999"], ["r", "1600000000"],
+                                 ["expiration_", str(T - 1)], ["Expiration", str(T - 1)], ["x", str(T - 1)],
+                                 ["t", "expiration"], [str(T - 1), "expiration"], ["expiratio", "5"],
+                                 ["e", str(T - 2)], ["p", "1"], ["g", str(T - 1), "expiration"]])
+                     for _ in range(rng.choice([1, 1, 2]))]
+            tags = ev["tags"] + extra if rng.random() < 0.5 else extra + ev["tags"]
+            h.add(h.regular(author=evgen_author(ev), kind=ev["kind"], tags=tags, created_at=ev["created_at"],
+                            content=ev["content"]))
     h.ops.append(["advance", adv1])
     h.ops.append(["gc"])
     for k in (20000, 29999, 25000):
@@ -191,6 +204,14 @@ def gen(rng, knobs):
         h.ops.append(["advance", rng.choice([0, 1, 2, 3600])])
         h.ops.append(["gc"])
     return {"backend": backend, "ops": h.ops}
+
+
+def evgen_author(ev):
+    from .. import evgen
+    for i, k in enumerate(evgen.AUTHORS):
+        if k.pub == ev["pubkey"]:
+            return i
+    raise KeyError(ev["pubkey"])
 
 
 def sample(case):
@@ -215,6 +236,36 @@ def expclass(x, T):
     d = len(exps[0])
     rel = "past" if v < int(T) else ("now" if v == int(T) else "future")
     return "%s/%ddigits" % (rel, d)
+
+
+def index_entries(o, backend):
+    """'together with all their index entries': after the pass the secondary structures describe exactly
+    the events that are left"""
+    if "post_full" not in o:
+        return []
+    out = []
+    if backend == "sql":
+        (pre_ev, pre_rows), (post_ev, post_rows) = o["pre_full"], o["post_full"]
+        orphans = sorted(r for r in post_rows if r[0] not in post_ev)
+        if orphans:
+            out.append({"cls": "index-entries-left", "sig": "index-entries-left|sql|" + str(orphans[0][1])[:12],
+                        "detail": {"rows": [[r[0][:8], r[1], r[2][:20]] for r in orphans[:4]]}})
+        for i in post_ev:
+            a = sorted(r for r in pre_rows if r[0] == i)
+            b = sorted(r for r in post_rows if r[0] == i)
+            if a != b and i in pre_ev:
+                out.append({"cls": "index-entries-of-kept-event-changed", "sig": "index-entries-of-kept-event-changed|sql",
+                            "detail": {"id": i[:8], "before": [r[1:] for r in a][:4], "after": [r[1:] for r in b][:4]}})
+                break
+    else:
+        from . import c10
+        from nostr_relay.storage import kv
+        keys, data = o["post_raw"]
+        problems, _ = c10.coherence(kv, keys, data)
+        if problems:
+            out.append({"cls": "index-entries-incoherent", "sig": "index-entries-incoherent|lmdb|%s|%s" % problems[0][:2],
+                        "detail": {"problems": [list(p) for p in problems[:4]]}})
+    return out
 
 
 def check(obs, backend):
@@ -243,6 +294,7 @@ def check(obs, backend):
                              "detail": {"T": int(T), "event": oracles.brief(pre[i])}})
             if set(post) - set(pre):
                 viol.append({"cls": "gc-added", "sig": "gc-added|" + backend, "detail": {}})
+            viol += index_entries(o, backend)
             passed = True
         elif kind == "query" and passed and o["res"][0] == "ok":
             for e in o["res"][1]:
@@ -257,7 +309,7 @@ def check(obs, backend):
 def run(case, sim):
     if case.get("mode") == "relay":
         return run_relay(case, sim)
-    w, obs = store.run_store(sim, case["backend"], case["ops"])
+    w, obs = store.run_store(sim, case["backend"], case["ops"], full_gc=True)
     viol, nontrivial = check(obs, case["backend"])
     seen, v2 = set(), []
     for v in viol:
